@@ -58,13 +58,13 @@ type BudgetExceeded struct{}
 type DeadlockAbort struct{}
 
 type task struct {
-	state    int32
-	wake     int32
-	opSteps  int64
-	opLimit  int64
+	state     int32
+	wake      int32
+	opSteps   int64
+	opLimit   int64
 	blockedAt int64 // value of syncEpoch when the task last found its primitive unavailable
-	prio     int64 // PCT
-	rfd, wfd int   // pipe hand-over
+	prio      int64 // PCT
+	rfd, wfd  int   // pipe hand-over
 }
 
 var (
